@@ -208,6 +208,62 @@ def group_first_message(r, roots):
             w.close()
 
 
+def status_from_new_identity(r, roots):
+    """A status update (from=status@broadcast, participant=the contact) is a message of that CONTACT: its identity is checked against what
+    is remembered for the contact.  Written by the contact's new installation it is refused and the remembered key stays (no automatic
+    trust), or the key is replaced and the update shown (automatic trust)."""
+    from yowsup.layers.protocol_messages.protocolentities import TextMessageProtocolEntity
+    from yowsup.layers.protocol_messages.protocolentities.attributes.attributes_message_meta import MessageMetaAttributes
+    for auto in (False, True):
+        r.case(("status-from-new-identity", auto))
+        r.cov["traces_validated_against_impl"] += 1
+        try:
+            w = e2e.World(roots, 2, autotrust=[auto, False], group=False)
+        except Exception as ex:
+            r.violation("exception:boot:%s" % type(ex).__name__, "the accounts cannot log in: %r" % (ex,), {})
+            continue
+        n = {"k": 0}
+
+        def send(s, dest, status=False):
+            n["k"] += 1
+            mid = "s%d" % n["k"]
+            if status:
+                w.server.as_status.add(mid)
+            w.do_submit(s, mid, dest, TextMessageProtocolEntity("text-" + mid, MessageMetaAttributes(id=mid, recipient=w.acc(dest).jid)))
+            w.settle(cap=800)
+            return mid
+        try:
+            a, b = w.acc("a"), w.acc("b")
+            m0 = send("b", "a", status=True)       # a status update from the identity a will remember
+            if not any(x[0] == "a" and x[1] == m0 for x in w.shown):
+                r.violation("delivered:not:status-first-contact", "a status update from a new contact was not shown", {"auto": auto})
+                continue
+            old = a.pinned(b)
+            b.reinstall()
+            new_key = b.identity_pub()
+            mid = send("b", "a", status=True)
+            shown = any(x[0] == "a" and x[1] == mid for x in w.shown)
+            now = a.pinned(b)
+            if auto:
+                if now != [new_key]:
+                    r.violation("pin:not-updated:autotrust:status", "with automatic trust, a status update from a contact's new identity did not replace the key remembered for the contact", {"auto": auto})
+                elif not shown:
+                    r.violation("delivered:not:autotrust:status", "with automatic trust, the status update that presented the contact's new identity was not shown", {"auto": auto})
+            else:
+                if now != old:
+                    r.violation("pin:replaced-silently:status", "without automatic trust, a status update from a contact's new identity changed the remembered key", {"auto": auto})
+                if shown:
+                    r.violation("delivered:despite-changed-identity:status", "without automatic trust, a status update written by a contact's new identity was shown (the contact's remembered key was not consulted)", {"auto": auto})
+        except e2e.Diverged:
+            r.violation("diverged:status", "the exchange does not settle (automatic trust %s)" % auto, {"auto": auto})
+        except core.MachineryError:
+            raise
+        except Exception as ex:
+            r.violation("exception:status:%s" % type(ex).__name__, "raised %r (automatic trust %s)" % (ex, auto), {"auto": auto})
+        finally:
+            w.close()
+
+
 def run(only=None):
     r = core.Run("C17", "model_checking")
     thorough = r.tier == "thorough"
@@ -247,6 +303,7 @@ def run(only=None):
                     r.sample({"history": [g.edges[i][1] for i in p]})
             r.notes["spec_transitions_replayed_%d" % len(names)] = len(covered)
         group_first_message(r, roots)
+        status_from_new_identity(r, roots)
         if len(r.notes.get("drift", [])) > 5 and not r.violations:
             raise core.MachineryError("Identity.tla does not describe the exchange: %s" % r.notes["drift"][:3])
     finally:
